@@ -62,6 +62,9 @@ class Models:
             o = DictObj.empty(st, TStr, TVal)
             o.is_empty_literal = True
             return st.alloc(o)
+        r = self._plug("make_dict", ex, keys, vals)  # heterogeneous / unpacking literals a plugin knows how to type (a key None stands for `**value`)
+        if r is not NotImplemented:
+            return r
         if any(k is None for k in keys):
             raise Unsupported("dict unpacking in literal")
         kt = _join_types(ex, [type_of_value(st, k) for k in keys])
